@@ -4,7 +4,6 @@ import copy
 import fnmatch
 import json
 from collections.abc import Mapping, Sequence
-from operator import itemgetter
 from typing import Any, Dict, List, Optional
 
 import jsonpatch
@@ -74,7 +73,9 @@ def _ensure_pointer_exists(doc: Dict[str, Any], pointer: jsonpointer.JsonPointer
 
 def make_patch(old: Dict[str, Any], new: Dict[str, Any]) -> List[Dict[str, Any]]:
     """Generate a JSON patch by comparing the old document with the new one."""
-    return sorted(jsonpatch.make_patch(old, new).patch, key=itemgetter("path"))
+    # keep the order produced by jsonpatch: RFC 6902 operations are applied
+    # sequentially and do not commute (array indices shift, "move" has a source)
+    return list(jsonpatch.make_patch(old, new).patch)
 
 
 def apply_patch(content: Optional[bytes], patch_bytes: bytes) -> bytes:
@@ -179,5 +180,5 @@ def _resolve_json_pointers(pattern: str, content: Dict[str, Any]) -> List[jsonpo
 
     ret: List[jsonpointer.JsonPointer] = []
     for matched_parts, _ in matched:
-        ret.append(jsonpointer.JsonPointer("/" + "/".join(matched_parts)))
+        ret.append(jsonpointer.JsonPointer("/" + "/".join(jsonpointer.escape(p) for p in matched_parts)))
     return ret
